@@ -506,4 +506,233 @@ theorem ct_fldCodeflagT_ok {n : Nat} {v : Val} {fo : FldOut} (h : fldCodeflagT n
           | num a b => cases hraw
           | bytes b => cases hraw
 
+/-! ### the column writers checked for transparency, and their codecs -/
+
+/-- `col`, refusing unless every subset's value is accepted by the (checked) uncompressed field
+    writer `fld`; the ghost output `canon` is what the UNCOMPRESSED decoder returns per subset -/
+def colT (col : ColW) (fld : Fld) : ColW := fun allEq values => do
+  let o ← col allEq values
+  let fos ← values.mapM fld
+  pure { o with canon := fos.map (·.canon) }
+
+theorem colT_ok {col : ColW} {fld : Fld} {a : Bool} {values : List Val} {o : ColOut}
+    (h : colT col fld a values = .ok o) :
+    ∃ o' fos, col a values = .ok o' ∧ List.mapM (m := Except Err) fld values = .ok fos ∧
+      o = { o' with canon := fos.map (·.canon) } := by
+  unfold colT at h
+  simp only [bind, Except.bind, pure, Except.pure] at h
+  cases hc : col a values with
+  | error e => rw [hc] at h; cases h
+  | ok o' =>
+    rw [hc] at h
+    dsimp only at h
+    cases hm : List.mapM (m := Except Err) fld values with
+    | error e => rw [hm] at h; cases h
+    | ok fos => rw [hm] at h; cases h; exact ⟨o', fos, rfl, rfl, rfl⟩
+
+/-- the column reader, run on `n` subsets and a stream that starts with the column, returns the
+    ghost column, the register update, and consumes exactly the column -/
+def CodecC (col : ColW) (rd : RdC) : Prop :=
+  ∀ v0 vs o, col ((v0 :: vs).all (· == v0)) (v0 :: vs) = .ok o →
+    o.canon.length = (v0 :: vs).length ∧
+    ∀ rest, rd (v0 :: vs).length (o.bits ++ rest) = .ok ((o.canon, o.upd), rest)
+
+theorem codecC_numeric (nb sc rf : Int) :
+    CodecC (colT (colNumeric nb sc rf) (fldNumericT nb sc rf)) (rdNumericC nb sc rf) := by
+  intro v0 vs o h
+  obtain ⟨o', fos, hc, hm, rfl⟩ := colT_ok h
+  have hrel := ct_mapM_rel2 _ _ _ hm
+  refine ⟨by simp [ct_mapM_length hm], fun rest => ?_⟩
+  unfold colNumeric at hc
+  cases hn : natWidth nb with
+  | error e => rw [hn] at hc; cases hc
+  | ok n =>
+    rw [hn] at hc
+    simp only [bind, Except.bind, pure, Except.pure] at hc
+    cases hr : List.mapM (m := Except Err) (rawOptNumeric sc rf)
+        (if ((v0 :: vs).all fun x => x == v0) = true then List.take 1 (v0 :: vs) else v0 :: vs) with
+    | error e => rw [hr] at hc; cases hc
+    | ok raws =>
+      rw [hr] at hc
+      dsimp only at hc
+      cases hf : encIntColumn ((v0 :: vs).all fun x => x == v0) raws n with
+      | error e => rw [hf] at hc; cases hc
+      | ok f =>
+        rw [hf] at hc
+        cases hc
+        have hall : ∀ v ∈ v0 :: vs, ∃ fo, fldNumericT nb sc rf v = .ok fo := ct_rel2_ok hrel
+        obtain ⟨fo0, hfo0⟩ := hall v0 (by simp)
+        obtain ⟨hw, hw64, _⟩ := ct_fldNumericT_ok hn hfo0
+        have hrd := ct_intColumn_vals n (rawOptNumeric sc rf) (rNnumeric sc rf) v0 vs raws f hw hw64
+          (fun v hv => by obtain ⟨fo, hfo⟩ := hall v hv; exact (ct_fldNumericT_ok hn hfo).2.2.1)
+          (fun v hv => by obtain ⟨fo, hfo⟩ := hall v hv; exact (ct_fldNumericT_ok hn hfo).2.2.2.2.1)
+          (fun v hv => by obtain ⟨fo, hfo⟩ := hall v hv; exact (ct_fldNumericT_ok hn hfo).2.2.2.2.2)
+          hr hf rest
+        have hcanon : fos.map (·.canon) = (v0 :: vs).map (fun v => numVal (rNnumeric sc rf v) sc rf) :=
+          ct_rel2_map hrel _ _ (fun v _ fo hfo => (ct_fldNumericT_ok hn hfo).2.2.2.1)
+        simp only [rdNumericC, hn, bind, Except.bind, pure, Except.pure, hrd, hcanon, List.map_map]
+        rfl
+
+theorem codecC_codeflag (n : Nat) :
+    CodecC (colT (colCodeflag n) (fldCodeflagT n)) (rdCodeflagC n) := by
+  intro v0 vs o h
+  obtain ⟨o', fos, hc, hm, rfl⟩ := colT_ok h
+  have hrel := ct_mapM_rel2 _ _ _ hm
+  refine ⟨by simp [ct_mapM_length hm], fun rest => ?_⟩
+  unfold colCodeflag at hc
+  simp only [bind, Except.bind, pure, Except.pure] at hc
+  cases hr : List.mapM (m := Except Err) rawOptCodeflag
+      (if ((v0 :: vs).all fun x => x == v0) = true then List.take 1 (v0 :: vs) else v0 :: vs) with
+  | error e => rw [hr] at hc; cases hc
+  | ok raws =>
+    rw [hr] at hc
+    dsimp only at hc
+    cases hf : encIntColumn ((v0 :: vs).all fun x => x == v0) raws n with
+    | error e => rw [hf] at hc; cases hc
+    | ok f =>
+      rw [hf] at hc
+      cases hc
+      have hall : ∀ v ∈ v0 :: vs, ∃ fo, fldCodeflagT n v = .ok fo := ct_rel2_ok hrel
+      obtain ⟨fo0, hfo0⟩ := hall v0 (by simp)
+      obtain ⟨hw, hw64, _⟩ := ct_fldCodeflagT_ok hfo0
+      have hrd := ct_intColumn_vals n rawOptCodeflag rNcodeflag v0 vs raws f hw hw64
+        (fun v hv => by obtain ⟨fo, hfo⟩ := hall v hv; exact (ct_fldCodeflagT_ok hfo).2.2.1)
+        (fun v hv => by obtain ⟨fo, hfo⟩ := hall v hv; exact (ct_fldCodeflagT_ok hfo).2.2.2.2.1)
+        (fun v hv => by obtain ⟨fo, hfo⟩ := hall v hv; exact (ct_fldCodeflagT_ok hfo).2.2.2.2.2)
+        hr hf rest
+      have hcanon : fos.map (·.canon) = (v0 :: vs).map (fun v => codeflagVal n (rNcodeflag v)) :=
+        ct_rel2_map hrel _ _ (fun v _ fo hfo => (ct_fldCodeflagT_ok hfo).2.2.2.1)
+      simp only [rdCodeflagC, bind, Except.bind, pure, Except.pure, hrd, hcanon, List.map_map]
+      rfl
+
+/-- a supplied character value as the encoder's column entry -/
+def sNstring (v : Val) : Option (List UInt8) :=
+  match v with
+  | .bytes b => some b
+  | _ => none
+
+theorem ct_fldString_ok {n : Nat} {v : Val} {fo : FldOut} (h : fldString n v = .ok fo) :
+    strOpt v = .ok (sNstring v) ∧ fo.canon = .bytes (Spec.strCanon n (sNstring v)) := by
+  unfold fldString at h
+  simp only [bind, Except.bind, pure, Except.pure] at h
+  cases v with
+  | missing =>
+    simp only [strBytes] at h
+    cases h
+    refine ⟨rfl, ?_⟩
+    simp only [sNstring, Spec.strCanon]
+    rw [padBytes_of_length _ _ (by simp)]
+  | bytes b =>
+    simp only [strBytes] at h
+    cases h
+    exact ⟨rfl, rfl⟩
+  | int i => cases h
+  | num a b => cases h
+
+theorem codecC_string (n : Nat) : CodecC (colT (colString n) (fldString n)) (rdStringC n) := by
+  intro v0 vs o h
+  obtain ⟨o', fos, hc, hm, rfl⟩ := colT_ok h
+  have hrel := ct_mapM_rel2 _ _ _ hm
+  refine ⟨by simp [ct_mapM_length hm], fun rest => ?_⟩
+  unfold colString at hc
+  simp only [bind, Except.bind, pure, Except.pure] at hc
+  have hall : ∀ v ∈ v0 :: vs, ∃ fo, fldString n v = .ok fo := ct_rel2_ok hrel
+  have hstrs : List.mapM (m := Except Err) strOpt (v0 :: vs) = .ok ((v0 :: vs).map sNstring) :=
+    ct_mapM_of_forall strOpt sNstring _
+      (fun v hv => by obtain ⟨fo, hfo⟩ := hall v hv; exact (ct_fldString_ok hfo).1)
+  rw [hstrs] at hc
+  dsimp only at hc
+  cases hf : encStringColumn ((v0 :: vs).all fun x => x == v0) ((v0 :: vs).map sNstring) n with
+  | error e => rw [hf] at hc; cases hc
+  | ok f =>
+    rw [hf] at hc
+    cases hc
+    have h63 : ((v0 :: vs).all fun x => x == v0) = false → n ≤ 63 := by
+      intro ha
+      rw [ha] at hf
+      simp only [encStringColumn, Bool.false_eq_true, if_false] at hf
+      obtain ⟨_, _, _, h1, _⟩ := ct_catBits_cons hf
+      obtain ⟨_, _, h2, _, _⟩ := ct_catBits_cons h1
+      obtain ⟨_, _, hlt, _⟩ := fieldUInt_ok h2
+      have : (2 : Nat) ^ 6 = 64 := by decide
+      omega
+    have heq : ((v0 :: vs).all fun x => x == v0) = true →
+        ∀ s ∈ (v0 :: vs).map sNstring, s = ((v0 :: vs).map sNstring).headD none := by
+      intro ha s hs
+      obtain ⟨v, hv, rfl⟩ := List.mem_map.mp hs
+      rw [all_beq_mem ha hv]
+      rfl
+    obtain ⟨bits, hb, hrd⟩ := C05_string_column_roundtrip n _ ((v0 :: vs).map sNstring) rest h63 heq
+    rw [hb] at hf
+    cases hf
+    have hcanon : fos.map (·.canon) = (v0 :: vs).map (fun v => Val.bytes (Spec.strCanon n (sNstring v))) :=
+      ct_rel2_map hrel _ _ (fun v _ fo hfo => (ct_fldString_ok hfo).2)
+    simp only [List.length_map] at hrd
+    simp only [rdStringC, bind, Except.bind, pure, Except.pure, hrd, hcanon, List.map_map]
+    rfl
+
+theorem codecC_newRefval (id n : Nat) :
+    CodecC (colT (colNewRefval id n) (fldNewRefval id n)) (rdNewRefvalC id n) := by
+  intro v0 vs o h
+  obtain ⟨o', fos, hc, hm, rfl⟩ := colT_ok h
+  have hrel := ct_mapM_rel2 _ _ _ hm
+  refine ⟨by simp [ct_mapM_length hm], fun rest => ?_⟩
+  unfold colNewRefval at hc
+  cases ha : ((v0 :: vs).all fun x => x == v0) with
+  | false => rw [ha] at hc; cases hc
+  | true =>
+    rw [ha] at hc
+    simp only [Bool.not_true, Bool.false_eq_true, if_false, List.headD_cons] at hc
+    cases v0 with
+    | int i =>
+      simp only [bind, Except.bind, pure, Except.pure] at hc
+      cases hf1 : fieldInt i n with
+      | error e => rw [hf1] at hc; cases hc
+      | ok f1 =>
+        rw [hf1] at hc
+        dsimp only at hc
+        have hf2 : fieldUInt 0 6 = .ok (toBits 6 0) := rfl
+        rw [hf2] at hc
+        cases hc
+        obtain ⟨h0, hlt, rfl⟩ := sim_fieldInt_ok hf1
+        have hcanon : fos.map (·.canon) = (Val.int i :: vs).map (fun _ => Val.int i) :=
+          ct_rel2_map hrel _ _ (fun v hv fo hfo => by
+            rw [all_beq_mem ha hv] at hfo
+            simp only [fldNewRefval, bind, Except.bind, pure, Except.pure, hf1] at hfo
+            cases hfo; rfl)
+        have hrep : (Val.int i :: vs).map (fun _ => Val.int i)
+            = List.replicate (Val.int i :: vs).length (Val.int i) := by
+          rw [List.eq_replicate_iff]
+          exact ⟨by simp, fun b hb => by obtain ⟨_, _, rfl⟩ := List.mem_map.mp hb; rfl⟩
+        have hri := sim_readInt_field n i (toBits 6 0 ++ rest) h0 hlt
+        simp only [List.cons_append, List.append_assoc] at hri ⊢
+        simp only [rdNewRefvalC, bind, Except.bind, pure, Except.pure, hri,
+          readUInt_toBits 6 0 rest (by omega) (by omega), hcanon, hrep]
+        rfl
+    | missing => cases hc
+    | num a b => cases hc
+    | bytes b => cases hc
+
+theorem codecC_constant (c : Int) :
+    CodecC (colT (colConstant c) (fldConstant c)) (rdConstantC c) := by
+  intro v0 vs o h
+  obtain ⟨o', fos, hc, hm, rfl⟩ := colT_ok h
+  have hrel := ct_mapM_rel2 _ _ _ hm
+  refine ⟨by simp [ct_mapM_length hm], fun rest => ?_⟩
+  unfold colConstant at hc
+  by_cases hb : (((v0 :: vs).all fun x => x == v0) && (v0 :: vs).headD .missing == Val.int c) = true
+  · rw [if_pos hb] at hc
+    cases hc
+    simp only [Bool.and_eq_true, List.headD_cons, beq_iff_eq] at hb
+    have hcanon : fos.map (·.canon) = (v0 :: vs).map (fun _ => Val.int c) :=
+      ct_rel2_map hrel _ _ (fun v hv fo hfo => by
+        rw [all_beq_mem hb.1 hv, hb.2] at hfo
+        simp only [fldConstant, ne_eq, not_true_eq_false, if_false] at hfo
+        cases hfo; rfl)
+    have hrep : (v0 :: vs).map (fun _ => Val.int c) = List.replicate (v0 :: vs).length (Val.int c) := by
+      rw [List.eq_replicate_iff]
+      exact ⟨by simp, fun b hb => by obtain ⟨_, _, rfl⟩ := List.mem_map.mp hb; rfl⟩
+    simp only [rdConstantC, hcanon, hrep, List.nil_append]
+  · rw [if_neg hb] at hc; cases hc
+
 end Bufr
